@@ -20,10 +20,12 @@ from .model import AnalysisError, FuncInfo
 from .poly import PolyEnv
 
 _ORD = re.compile(r"#\d+(?=\()")
+_VER = re.compile(r"(?<=[\w\]>])@\d+(_\d+)*")
 
 
 def strip_ordinals(text: str) -> str:
-    return _ORD.sub("", text)
+    """Drop the evaluation-order ordinals of stateful calls and the definition-set labels of multiply-defined locals."""
+    return _VER.sub("", _ORD.sub("", text))
 
 
 def canon(text: str | ast.AST) -> str:
